@@ -209,7 +209,11 @@ def build_response(rng, ident, head_method=False, close_delimited_ok=False):
     rng.shuffle(hdrs)
     wire = proto + b" %d " % status + rng.choice([b"OK", b"Not Found", b"Whatever It Is"]) + b"\r\n"
     for n, v in hdrs:
-        wire += n + b": " + v + b"\r\n"
+        if rng.random() < 0.15 and len(v) > 1 and n not in (b"Content-Length", b"Transfer-Encoding"):
+            k = rng.randint(1, len(v) - 1)
+            wire += n + b": " + v[:k] + b"\r\n" + rng.choice([b" ", b"\t"]) + v[k:] + b"\r\n"      # folded (no ':' in the continuation)
+        else:
+            wire += n + b": " + v + b"\r\n"
     wire += b"\r\n"
     if framing == "chunked":
         wire += chunked_encode(rng, body)
